@@ -297,6 +297,13 @@ class Gen:
         return -1
 
     def write_place(self, p, val):
+        if p[0] == 'field' and len(p) > 3 and p[3] is not None and p[3].strip().endswith('JobState'):
+            # write barrier (C17): every assignment to a NodeInfo.state place is shown to the state hook
+            # together with the value it overwrites
+            return '_sw = %s; rt.state_write(%s, _sw); %s' % (val, self.read_place(p), self._write_place(p, '_sw'))
+        return self._write_place(p, val)
+
+    def _write_place(self, p, val):
         local, projs = self.flatten(p)
         k = self.last_deref(projs)
         if k < 0:
@@ -414,10 +421,20 @@ class Gen:
                     raise mp.ParseError('overflow op type %r' % ty)
                 it = m.group(1)
                 return 'rt.ovf(%r, %s, %s, %d, %s)' % (op[:3], a, b, INT_BITS[it], 'True' if it[0] == 'i' else 'False')
-            if op in ('Add', 'Sub', 'Mul', 'AddUnchecked', 'SubUnchecked'):
+            if op in ('Add', 'Sub', 'Mul', 'AddUnchecked', 'SubUnchecked', 'MulUnchecked'):
                 if ty not in INT_BITS:
                     raise mp.ParseError('arith op type %r' % ty)
                 return 'rt.wrap(%r, %s, %s, %d, %s)' % (op[:3], a, b, INT_BITS[ty], 'True' if ty[0] == 'i' else 'False')
+            if op in ('Div', 'Rem'):
+                if ty not in INT_BITS:
+                    raise mp.ParseError('arith op type %r' % ty)
+                return 'rt.divrem(%r, %s, %s, %d, %s)' % (op, a, b, INT_BITS[ty], 'True' if ty[0] == 'i' else 'False')
+            if op in ('Shl', 'Shr', 'ShlUnchecked', 'ShrUnchecked'):
+                if ty not in INT_BITS:
+                    raise mp.ParseError('shift op type %r' % ty)
+                return 'rt.shift(%r, %s, %s, %d, %s)' % (op[:3], a, b, INT_BITS[ty], 'True' if ty[0] == 'i' else 'False')
+            if op == 'Cmp':
+                return 'rt.cmp3(%s, %s)' % (a, b)
             raise mp.ParseError('binop %r' % op)
         if k == 'unop':
             a = self.operand(rv[2])
@@ -425,7 +442,14 @@ class Gen:
                 ty = self.int_type_of_local(body, lhs)
                 if ty == 'bool':
                     return '(not %s)' % a
+                if ty in INT_BITS and ty[0] == 'u':
+                    return '((~%s) & %d)' % (a, (1 << INT_BITS[ty]) - 1)
                 raise mp.ParseError('Not on %r' % ty)
+            if rv[1] == 'Neg':
+                ty = self.int_type_of_local(body, lhs)
+                if ty in INT_BITS and ty[0] == 'i':
+                    return 'rt.to_signed(-(%s), %d)' % (a, INT_BITS[ty])
+                raise mp.ParseError('Neg on %r' % ty)
             if rv[1] == 'PtrMetadata':
                 return 'rt.seq_len(%s)' % a
             raise mp.ParseError('unop %r' % rv[1])
